@@ -130,7 +130,7 @@ func (r *replayer) run(pkgDir, harness string, values map[string]string, tag str
 	os.WriteFile(in, b, 0644)
 	cmd := exec.Command(bin, "-test.run", "^TestVerifReplay$", "-test.count=1", "-test.timeout=120s")
 	cmd.Dir = filepath.Join(r.e.repoDir, pkgDir)
-	cmd.Env = append(os.Environ(), "VERIF_REPLAY="+in, "VERIF_REPLAY_OUT="+outp, "VERIF_HARNESS="+harness, "VERIF_TIER="+r.e.tier)
+	cmd.Env = append(os.Environ(), "VERIF_REPLAY="+in, "VERIF_REPLAY_OUT="+outp, "VERIF_HARNESS="+harness, "VERIF_TIER="+r.e.tier, "VERIF_REPO="+r.e.repoDir)
 	co, err := cmd.CombinedOutput()
 	var oc replayOutcome
 	if e2 := loadJSON(outp, &oc); e2 != nil {
@@ -198,7 +198,7 @@ func runCheck(e *Engine, prop string, cfg PropConfig, known []KnownFinding, seed
 	} else {
 		fmt.Println("keeping scratch dir", tmp)
 	}
-	if old, _ := filepath.Glob(filepath.Join(e.verifDir, "replays", prop+"-*.json")); len(old) > 0 {
+	if old, _ := filepath.Glob(filepath.Join(e.outDir, "replays", prop+"-*.json")); len(old) > 0 {
 		for _, f := range old {
 			os.Remove(f)
 		}
@@ -233,7 +233,7 @@ func runCheck(e *Engine, prop string, cfg PropConfig, known []KnownFinding, seed
 	knownPrinted := map[string]bool{}
 	validated := 0
 	mismatches := 0
-	os.MkdirAll(filepath.Join(e.verifDir, "replays"), 0755)
+	os.MkdirAll(filepath.Join(e.outDir, "replays"), 0755)
 	type sample = map[string]interface{}
 	var samples []sample
 	total := Stats{}
@@ -310,7 +310,7 @@ func runCheck(e *Engine, prop string, cfg PropConfig, known []KnownFinding, seed
 				continue
 			}
 			violations++
-			keep := filepath.Join(e.verifDir, "replays", fmt.Sprintf("%s-%s-%d.json", prop, h.Name, vi))
+			keep := filepath.Join(e.outDir, "replays", fmt.Sprintf("%s-%s-%d.json", prop, h.Name, vi))
 			full := map[string]interface{}{"property": prop, "harness": h.Name, "package": pkgDir, "kind": v.Kind, "label": v.Label, "site": v.Site, "msg": v.Msg, "values": v.Values, "stack": v.Stack, "native": oc}
 			fb, _ := json.MarshalIndent(full, "", " ")
 			os.WriteFile(keep, fb, 0644)
@@ -438,8 +438,8 @@ func runCheck(e *Engine, prop string, cfg PropConfig, known []KnownFinding, seed
 		},
 	}
 	eb, _ := json.MarshalIndent(ev, "", " ")
-	os.MkdirAll(filepath.Join(e.verifDir, "evidence"), 0755)
-	os.WriteFile(filepath.Join(e.verifDir, "evidence", prop+".json"), eb, 0644)
+	os.MkdirAll(filepath.Join(e.outDir, "evidence"), 0755)
+	os.WriteFile(filepath.Join(e.outDir, "evidence", prop+".json"), eb, 0644)
 	fmt.Printf("property=%s tier=%s harnesses=%d paths=%d obligations=%d discharged=%d queries=%d solver_s=%.1f validated=%d wall_s=%.1f exit=%d\n",
 		prop, e.tier, len(hs), total.Paths, total.Asserts, total.Discharged, total.Queries, total.SolverS, validated, time.Since(t0).Seconds(), exit)
 	return exit
